@@ -173,6 +173,8 @@ fn main() {
         "saslx" => vharness::saslx::run(seed, n, thorough, &corpus, &dir),
         "hreuse" => vharness::hreuse::run(seed, n, thorough, &corpus, &dir),
         "msg" => vharness::msg::run(seed, n, thorough, &corpus, &dir),
+        "lill" => vharness::lill::run(seed, n, thorough, &corpus, &dir),
+        "lwin" => vharness::lwin::run(seed, n, thorough, &corpus, &dir),
         other => { eprintln!("unknown sub-harness {other}"); std::process::exit(2); }
     }
 }
